@@ -169,6 +169,13 @@ fn rel_paths(max_segs: usize) -> Vec<String> {
         level = next;
     }
     let mut out = BTreeSet::new();
+    // climbing: k parent references (more than any source directory is deep), alone and followed
+    // by a normal segment, so that paths reach and pass the file-system root
+    for k in 1..=9 {
+        out.insert(vec![".."; k].join("/"));
+        out.insert(format!("{}/x", vec![".."; k].join("/")));
+        out.insert(format!("a/{}/x/", vec![".."; k].join("/")));
+    }
     for s in seqs {
         let base = s.join("/");
         for lead in ["", "./"] {
